@@ -469,6 +469,13 @@ func (r *Router) handleConn(remote *ServerIdentity, c Conn) {
 				r.triggerConnectionErrorHandlers(remote)
 				return
 			}
+			if xerrors.Is(err, ErrTooBig) {
+				// The body of the refused packet has not been read: what
+				// follows on this connection cannot be parsed anymore.
+				log.Lvl2(r.ServerIdentity, "drops", remote, "connection:", err)
+				r.triggerConnectionErrorHandlers(remote)
+				return
+			}
 			// Temporary error, continue.
 			log.Lvl3(r.ServerIdentity, "Error with connection", address, "=>", err)
 			continue
